@@ -5,7 +5,7 @@ import re
 import framework
 from framework import REPO, ROOT
 
-TIE = ["Nsq.Tie.Gate"]
+TIE = ["Nsq.Tie.Gate", "Nsq.Tie.WireStack"]   # claim audit 2: the F30 shape of the writer stack is a tie of C11 too (Gen.WireStack: ctx.gen("e1_stack") in run())
 PROPS = ["Nsq.Props.C11", "Nsq.Props.C11Auth", "Nsq.Props.C11Tls"]
 
 TREE_HAS_F30 = [False]  # set in run(): the regenerated SetOutputBuffer shape (specs/e1_stack.json, Nsq.Gen.WireStack)
